@@ -210,7 +210,7 @@ AMENDS = {'C02': [('text', 'a rejection triggers a product search for a concrete
  'C04': [('text', "(nesting, ranges, late '+=', '&=', '-=')", '(nesting, ranges, late \'+=\', \'&=\', \'-=\'; glyph lists written as glyphid() or through the cmap as codepoint(\'c\'..\'f\'), codepoint("cdef"), unicode(a..b), U+xxxx..U+yyyy)')],
  'C03': [('text', 'never meets an unknown opcode or truncated operand and ends in a return,', 'never meets an unknown opcode or truncated operand and ends in a return (the executable checker additionally requires exactly one value on the stack at the return),')],
  'C05': [('note', 'Not covered yet: m-unit scaling, glyph metrics/point()/box() in values,', "Scaled numbers (m / M suffix with a global MUnits) are generated and expected with the compiler's float arithmetic. Not covered yet: glyph metrics/point()/box() in values,")],
- 'C10': [('text', 'Tie: 33 single-fault injections', 'Tie: 40 single-fault injections'),
+ 'C10': [('text', 'Tie: 33 single-fault injections', 'Tie: 42 single-fault injections'),
   ('text', 'incl. slot references to inserted items in component references, attribute values and constraints)', 'incl. slot references to inserted items and to line-break items in selectors, associations, component references, attribute values and constraints, item number 0 with and without ANY padding)')],
  'C11': [('text', 'on a corpus of 33 past failures,', 'on a corpus of 46 past failures (incl. preprocessor arithmetic: division by zero in skipped operands, INT_MIN / -1, fatal buffer overflows; the death of gdlpp counts as a crash),')],
  'C12': [('text', 'fifteen program families (', "nineteen program families (padded rule slots (the 64-slot limit reached through another rule's leading context; above it the program MUST be rejected), script tags around 255/256, justification attribute ids beyond one byte (many ligature components), glyph-attribute count around 65535/65536, ")],
